@@ -144,6 +144,13 @@ pub fn deep_programs() -> Vec<Program> {
         let root = StructDecl::new(Trait::FromMeta, vec![Field::new("alpha_beta", Ty::Struct(1)), Field::new("gamma_x", Ty::OptU32)]);
         out.push(Program { decls: vec![Decl::Struct(root), Decl::Struct(mid), Decl::Struct(leaf)], root: 0, family: "deep same-name".into() });
     }
+    // irregular member names under every case rule: leading underscore, digits next to the
+    // separators, doubled underscore
+    for rule in Rule::ALL {
+        let mut root = StructDecl::new(Trait::FromMeta, vec![Field::new("_lead_x", Ty::U32), Field::new("x1_y2", Ty::OptU32), Field::new("a__b", Ty::OptU32)]);
+        root.rule = rule;
+        out.push(Program { decls: vec![Decl::Struct(root)], root: 0, family: format!("deep odd-names {rule:?}") });
+    }
     // flatten into a map, next to a nested struct with an enum inside
     {
         let mut fm = Field::new("alpha_beta", Ty::MapU32);
@@ -421,6 +428,21 @@ pub fn enum_corpus(thorough: bool) -> Vec<Program> {
             out.extend(enum_program(&[a, (a + 4) % N_VKINDS, (a + 7) % N_VKINDS], (None, false, false, None)));
         }
     }
+    // irregular variant names under every case rule: underscores and digits inside, runs of capitals
+    for rule in std::iter::once(None).chain(Rule::ALL.into_iter().filter(|r| *r != Rule::None).map(Some)) {
+        let variants = vec![
+            Variant { rust: "Tls1_2".into(), rename: None, skip: false, word: None, body: VBody::Unit },
+            Variant { rust: "Quic_Draft".into(), rename: None, skip: false, word: None, body: VBody::Newtype(Ty::U32) },
+            Variant { rust: "ABc".into(), rename: None, skip: false, word: None, body: VBody::Struct(vec![Field::new("x", Ty::U32)]) },
+            // a struct variant that declares no field: everything written inside it is unknown
+            Variant { rust: "Empty".into(), rename: None, skip: false, word: None, body: VBody::Struct(vec![]) },
+        ];
+        out.push(Program {
+            decls: vec![Decl::Enum(EnumDecl { rule, from_word: false, from_none: false, allow_unknown: None, variants })],
+            root: 0,
+            family: format!("enum odd-names cfg({rule:?})"),
+        });
+    }
     out
 }
 
@@ -512,6 +534,32 @@ pub fn attr_corpus(thorough: bool) -> Vec<Program> {
                 pool[0] = Decl::Struct(s);
                 out.push(Program { decls: pool, root: 0, family: format!("attrs {} names={:?} fwd={:?}", t.name(), names, fwd) });
             }
+        }
+    }
+    // receivers whose only addressable member is a flatten member (every item of every attribute
+    // goes to it), without and with a skipped sibling
+    for t in [Trait::FromDeriveInput, Trait::FromField, Trait::FromVariant, Trait::FromTypeParam, Trait::FromAttributes] {
+        for with_skip in [false, true] {
+            let mut pool: Vec<Decl> = vec![Decl::Struct(StructDecl::new(t, vec![])), Decl::Struct(StructDecl::new(Trait::FromMeta, vec![]))];
+            let child = child_struct(&mut pool, false);
+            if let Decl::Struct(c) = &mut pool[child] {
+                c.from_none = true;
+            }
+            let mut m = Field::new("m", Ty::U32);
+            m.multiple = true;
+            pool[1] = Decl::Struct(StructDecl::new(Trait::FromMeta, vec![Field::new("alpha", Ty::U32), Field::new("gamma", Ty::OptU32), m, Field::new("n", Ty::Struct(child))]));
+            let mut fl = Field::new("inner", Ty::Struct(1));
+            fl.flatten = true;
+            let mut fields = vec![fl];
+            if with_skip {
+                let mut sk = Field::new("hidden", Ty::U32);
+                sk.skip = true;
+                fields.insert(0, sk);
+            }
+            let mut s = StructDecl::new(t, fields);
+            s.attrs = vec!["a".into(), "b".into()];
+            pool[0] = Decl::Struct(s);
+            out.push(Program { decls: pool, root: 0, family: format!("attrs {} names=[a, b] flatten-only skip={with_skip}", t.name()) });
         }
     }
     // receivers with declared attribute names but no ordinary member (magic members only)
